@@ -24,7 +24,7 @@ SSE2ONLY = {"SODIUM_VERIF_CPUID1_ECX_CLEAR": "0x12080201", "SODIUM_VERIF_CPUID7_
 CFGS = [("native", NO512, "avx2"), ("native", NOAVX2, "avx"), ("native", NOAVX, "sse41-aesni"), ("native", SSE2ONLY, "sse2"),
         ("noasm", NO512, "noasm"), ("no128", NO512, "no128"), ("portable", {}, "portable")]
 LENS_QUICK = [0, 1, 15, 16, 17, 31, 32, 33, 63, 64, 65, 127, 128, 129, 255, 256, 257, 1000]
-LENS_THOROUGH = sorted(set(list(range(0, 200)) + [255, 256, 257, 300, 383, 384, 385, 511, 512, 513, 767, 768, 769, 1000, 1023, 1024, 1025, 2047, 2048, 2049, 4095, 4096, 4097]))
+LENS_THOROUGH = sorted(set(list(range(0, 400)) + [511, 512, 513, 767, 768, 769, 1000, 1023, 1024, 1025, 2047, 2048, 2049, 4095, 4096, 4097]))
 
 
 def vg(R, exe, env, out_log, seed, filt, lens, timeout=3000):
@@ -63,6 +63,8 @@ def run(R):
     with ThreadPoolExecutor(max_workers=len(CFGS)) as ex:
         runs = list(ex.map(one, CFGS))
     for (variant, env, name), pr, log, nd, evs in runs:
+        if evs and evs[0].get("e") == "begin" and evs[0].get("lens") != list(lens):
+            raise vlib.MachineryError("taint driver did not run the requested lengths in configuration %s" % name)
         if pr.returncode != 0 or not evs or evs[-1].get("e") != "done":
             tail = open(log, errors="replace").read()[-1500:]
             if "unrecognised instruction" in tail or "Illegal instruction" in tail:
@@ -91,7 +93,7 @@ def run(R):
     R.cov.update({"evaluations": nops, "distinct_nontrivial": nops // len(CFGS),
                   "rule": "every operation of ConstTimeOps!Ops (secret operands tainted) at every listed length, under every CPU-feature "
                           "configuration Valgrind can execute; evaluations = monitored operation executions, distinct_nontrivial = (operation, length) pairs",
-                  "lengths": lens if not thorough else "0..199 and %s" % lens[200:], "configurations": [n for _, _, n in CFGS],
+                  "lengths": lens if not thorough else "0..399 and %s" % lens[400:], "configurations": [n for _, _, n in CFGS],
                   "monitor_reports_seen": nrep, "reports_by_function": allowed})
     R.sample({"cfg": runs[0][0][2], "events": runs[0][4][1:4]})
     R.sample({"cfg": runs[0][0][2], "first_status_report": next((e for e in runs[0][4] if e["e"] == "report" and not e["fn"].startswith("op_selfcheck")), None)})
